@@ -903,7 +903,9 @@ func (r *rewriter) rewrite(f *ast.File) *ast.File {
 				cl := cc.(*ast.CommClause)
 				if cl.Comm == nil {
 					hasDefault = true
-					sw.Body.List = append(sw.Body.List, &ast.CaseClause{List: []ast.Expr{&ast.UnaryExpr{Op: token.SUB, X: &ast.BasicLit{Kind: token.INT, Value: "1"}}}, Body: cl.Body})
+					// the select's default is the switch's default (SelectDefault answers -1): keeps
+					// "select with return in every case" a terminating statement
+					sw.Body.List = append(sw.Body.List, &ast.CaseClause{List: nil, Body: cl.Body})
 					continue
 				}
 				cv := r.tmp("c")
